@@ -141,4 +141,123 @@ Qed.
 
 Lemma lfr_erel_refl_nil (e : @lfr_e N) : l_cache e = [] -> lfr_erel e e.
 Proof. intros H. repeat split. rewrite H. constructor. Qed.
+
+(** ---- warning_level: run 1 = looser warning (narrower warning bounds), detect bounds equal ---- *)
+Definition wbrel (b1 b2 : @bounds N) : Prop :=
+  lb_detect b1 = lb_detect b2 /\ ub_detect b1 = ub_detect b2 /\
+  fleb (lb_warn b2) (lb_warn b1) = true /\ fleb (ub_warn b1) (ub_warn b2) = true.
+Definition worel (o1 o2 : @oracle_row N) : Prop :=
+  fst (fst (fst o1)) = fst (fst (fst o2)) /\ snd (fst (fst o1)) = snd (fst (fst o2)) /\
+  snd (fst o1) = snd (fst o2) /\
+  match snd o1, snd o2 with
+  | Some b1, Some b2 => wbrel b1 b2
+  | None, None => True
+  | _, _ => False
+  end.
+Definition wcrel (c1 c2 : @cache N) : Prop :=
+  Forall2 (fun x y => fst (fst x) = fst (fst y) /\ snd (fst x) = snd (fst y) /\ wbrel (snd x) (snd y)) c1 c2.
+
+Lemma wcache_find_rel k d : forall c1 c2, wcrel c1 c2 ->
+  match cache_find k d c1, cache_find k d c2 with
+  | Some b1, Some b2 => wbrel b1 b2
+  | None, None => True
+  | _, _ => False
+  end.
+Proof.
+  induction 1 as [|[[k1 d1] b1] [[k2 d2] b2] c1 c2 (Hk & Hd & Hb) _ IH]; simpl; [exact I|].
+  simpl in Hk, Hd. subst k2 d2. destruct (feqb k k1 && (d =? d1)%Z); [exact Hb | exact IH].
+Qed.
+
+Lemma w_alarm_rel v (b1 b2 : @bounds N) a1 a2 : wbrel b1 b2 -> a1 = a2 ->
+  a1 || outside v (lb_detect b1) (ub_detect b1) = a2 || outside v (lb_detect b2) (ub_detect b2).
+Proof. intros (H1 & H2 & _) ->. rewrite H1, H2. reflexivity. Qed.
+
+Lemma w_warn_rel v (b1 b2 : @bounds N) w1 w2 : wbrel b1 b2 -> (w2 = true -> w1 = true) ->
+  w2 || outside v (lb_warn b2) (ub_warn b2) = true -> w1 || outside v (lb_warn b1) (ub_warn b1) = true.
+Proof.
+  intros (_ & _ & Hl & Hu) Hw H. apply orb_true_iff in H. apply orb_true_iff.
+  destruct H as [H|H]; [left; exact (Hw H) | right].
+  unfold outside in *. apply orb_true_iff in H. apply orb_true_iff.
+  destruct H as [H|H]; [left; exact (tl_lt_le_trans N TL _ _ _ H Hl) | right; exact (tl_le_lt_trans N TL _ _ _ Hu H)].
+Qed.
+
+Lemma lfr_rates_wrel (p : @lfr_params N) gated agree oldc newc : forall rs orc1 orc2 r c1 c2 ok1 ok2 w1 w2 a1 a2,
+  Forall2 worel orc1 orc2 -> wcrel c1 c2 -> (w2 = true -> w1 = true) -> a1 = a2 ->
+  let res1 := lfr_rates p gated agree oldc newc rs orc1 r c1 ok1 w1 a1 in
+  let res2 := lfr_rates p gated agree oldc newc rs orc2 r c2 ok2 w2 a2 in
+  fst (fst (fst (fst res1))) = fst (fst (fst (fst res2))) /\
+  wcrel (snd (fst (fst (fst res1)))) (snd (fst (fst (fst res2)))) /\
+  (snd (fst res2) = true -> snd (fst res1) = true) /\
+  snd res1 = snd res2.
+Proof.
+  induction rs as [|rt rs IH]; intros orc1 orc2 r c1 c2 ok1 ok2 w1 w2 a1 a2 Ho Hc Hw Ha; cbn [lfr_rates].
+  - cbv zeta. simpl. repeat split; assumption.
+  - destruct gated; [|apply IH; assumption].
+    destruct Ho as [|[[[e1 d1] k1] s1] [[[e2 d2] k2] s2] orc1' orc2' (He & Hd & Hk & Hs) Ho'].
+    + apply IH; [constructor | assumption | assumption | assumption].
+    + simpl in He, Hd, Hk, Hs. subst e2 d2 k2.
+      pose proof (wcache_find_rel k1 d1 c1 c2 Hc) as Hf.
+      destruct (cache_find k1 d1 c1) as [b1|], (cache_find k1 d1 c2) as [b2|]; try contradiction;
+        destruct s1 as [t1|], s2 as [t2|]; try contradiction.
+      * apply IH; [assumption | assumption | apply w_warn_rel; assumption | apply w_alarm_rel; assumption].
+      * apply IH; [assumption | assumption | apply w_warn_rel; assumption | apply w_alarm_rel; assumption].
+      * apply IH; [assumption | constructor; [simpl; split; [reflexivity | split; [reflexivity | exact Hs]] | assumption]
+                   | apply w_warn_rel; assumption | apply w_alarm_rel; assumption].
+      * apply IH; assumption.
+Qed.
+
+Definition lfr_werel (e1 e2 : @lfr_e N) : Prop :=
+  l_conf e1 = l_conf e2 /\ l_r e1 = l_r e2 /\ wcrel (l_cache e1) (l_cache e2).
+Definition lfr_wxrel (x1 x2 : @lfr_input N) : Prop :=
+  fst (fst x1) = fst (fst x2) /\ snd (fst x1) = snd (fst x2) /\ Forall2 worel (snd x1) (snd x2).
+
+Lemma lfr_step_wrel (p : @lfr_params N) e1 e2 n x1 x2 : lfr_werel e1 e2 -> lfr_wxrel x1 x2 ->
+  lfr_werel (fst (lfr_step p e1 n x1)) (fst (lfr_step p e2 n x2)) /\
+  (snd (lfr_step p e1 n x1) = Some DDrift <-> snd (lfr_step p e2 n x2) = Some DDrift) /\
+  (snd (lfr_step p e1 n x1) = None <-> snd (lfr_step p e2 n x2) = None) /\
+  (snd (lfr_step p e2 n x2) = Some DWarn -> snd (lfr_step p e1 n x1) = Some DWarn).
+Proof.
+  intros (Hc & Hr & Hca) Hx. destruct x1 as [[yt yp] o1], x2 as [[yt2 yp2] o2].
+  destruct Hx as (H1 & H2 & Ho). simpl in H1, H2, Ho. subst yt2 yp2.
+  unfold lfr_step. rewrite <- Hc, <- Hr.
+  pose proof (lfr_rates_wrel p (lfr_gated p n) (Bool.eqb yt yp) (l_conf e1) (conf_add (l_conf e1) yt yp)
+                (l_tracked p) o1 o2 (l_r e1) (l_cache e1) (l_cache e2) (l_oracle_ok e1) (l_oracle_ok e2)
+                false false false false Ho Hca (fun H => H) eq_refl) as R.
+  cbv zeta in R.
+  destruct (lfr_rates p (lfr_gated p n) (Bool.eqb yt yp) (l_conf e1) (conf_add (l_conf e1) yt yp)
+              (l_tracked p) o1 (l_r e1) (l_cache e1) (l_oracle_ok e1) false false) as [[[[r1 ca1] ok1] w1] a1].
+  destruct (lfr_rates p (lfr_gated p n) (Bool.eqb yt yp) (l_conf e1) (conf_add (l_conf e1) yt yp)
+              (l_tracked p) o2 (l_r e1) (l_cache e2) (l_oracle_ok e2) false false) as [[[[r2 ca2] ok2] w2] a2].
+  simpl in R. destruct R as (Rr & Rc & Rw & Ra). subst r2 a2. simpl. split; [|split; [|split]].
+  - split; [reflexivity | split; [reflexivity | assumption]].
+  - destruct a1; [split; reflexivity|]. destruct w1, w2; split; discriminate.
+  - split; discriminate.
+  - destruct a1; [discriminate|]. destruct w2; [rewrite (Rw eq_refl); reflexivity | discriminate].
+Qed.
+
+Lemma lfr_reset_wrel (e1 e2 : @lfr_e N) : lfr_werel e1 e2 -> lfr_werel (lfr_reset e1) (lfr_reset e2).
+Proof. intros (_ & _ & H). split; [reflexivity | split; [reflexivity | exact H]]. Qed.
+
+(** loosening only warning_level: drifts in exactly the same places over the whole run (through resets),
+    every warning of the stricter setting is a warning of the looser one *)
+Theorem lfr_warning_loosening (p : @lfr_params N) xs1 xs2 (a b : st (LFR p)) :
+  Forall2 lfr_wxrel xs1 xs2 ->
+  lfr_werel (epoch a) (epoch b) -> total a = total b -> since a = since b ->
+  (ds a = DDrift <-> ds b = DDrift) -> (ds b = DWarn -> ds a = DWarn) ->
+  Forall2 (fun o1 o2 => (o_ds o1 = DDrift <-> o_ds o2 = DDrift) /\ (o_ds o2 = DWarn -> o_ds o1 = DWarn)
+                         /\ o_total o1 = o_total o2 /\ o_since o1 = o_since o2)
+          (trace a xs1) (trace b xs2).
+Proof.
+  intros HF He Ht Hs Hd Hw.
+  exact (warning_loosening2 lfr_e lfr_input lfr_input lfr_reset PolFirstWarn (lfr_step p) (lfr_step p) lfr_wxrel
+           lfr_werel lfr_reset_wrel
+           (fun e1 e2 n x1 x2 H1 H2 => proj1 (lfr_step_wrel p e1 e2 n x1 x2 H1 H2))
+           (fun e1 e2 n x1 x2 H1 H2 => proj1 (proj2 (lfr_step_wrel p e1 e2 n x1 x2 H1 H2)))
+           (fun e1 e2 n x1 x2 H1 H2 => proj1 (proj2 (proj2 (lfr_step_wrel p e1 e2 n x1 x2 H1 H2))))
+           (fun e1 e2 n x1 x2 H1 H2 => proj2 (proj2 (proj2 (lfr_step_wrel p e1 e2 n x1 x2 H1 H2))))
+           xs1 xs2 a b HF (conj He (conj Ht (conj Hs (conj Hd Hw))))).
+Qed.
+
+Lemma lfr_werel_refl_nil (e : @lfr_e N) : l_cache e = [] -> lfr_werel e e.
+Proof. intros H. split; [reflexivity | split; [reflexivity|]]. rewrite H. constructor. Qed.
 End LfrMono.
